@@ -100,4 +100,77 @@ written: the journal is empty, the flag is cleared — and the reserved sequence
 reserved (`NextPendingRootSeq` is not reset). -/
 def abortEmptyMultipart (s : St) : St := s
 
+/-! ## reopen, retry, observers (added for `Props/C07Path.lean`; definitions only) -/
+
+/-- **Observational equality**: everything a client of the `NodeDB` API can see of the database
+`q` is what it sees of `s` — `GetLatestVersion`, `GetEarliestVersion`, `GetRootsForVersion` of every
+version, `HasRoot` of every root, the stored root node of every root and the outcome of the full
+read-back (`read`: every pointer below the root resolves to a node with the recorded hash) of every
+root, finalized or pending.  Sequence numbers, the pending key space, the updated-nodes indices
+and the ghost key sets are NOT observable. -/
+structure ObsEq (s q : St) : Prop where
+  last : q.last = s.last
+  earliest : q.earliest = s.earliest
+  roots : ∀ v, rootsFor q v = rootsFor s v
+  hasRoot : ∀ r, PathBadger.hasRoot q r = PathBadger.hasRoot s r
+  rootNode : ∀ v th, rootVal q v th = rootVal s v th
+  read : ∀ r, PathBadger.read q r = PathBadger.read s r
+
+/-- The database together with the persisted multipart marker
+(`serializedMetadata.MultipartVersion` / `MultipartSeqs`, metadata.go:26-30; 0 = no restore in
+progress). -/
+structure PSt where
+  db : St
+  mpVersion : Nat
+  mpSeqs : List (Nat × Nat)
+
+/-- Durable steps of a checkpoint restore: the steps of the chunk commits / of the Finalize, and the
+`meta.commit` calls that write the multipart fields (together with the sequence-number table, as
+`meta.commit` always writes the whole metadata). -/
+inductive MDurable where
+  | db (d : Durable)
+  | mpMeta (name : String) (nextSeq : List (Nat × List (Nat × Nat))) (ver : Nat) (seqs : List (Nat × Nat))
+
+def MDurable.name : MDurable → String
+  | .db d => d.name
+  | .mpMeta n .. => n
+
+def applyMStep (p : PSt) : MDurable → PSt
+  | .db d => { p with db := applyStep p.db d }
+  | .mpMeta _ ns ver seqs => { db := { p.db with nextSeq := ns }, mpVersion := ver, mpSeqs := seqs }
+
+def applyMAll (p : PSt) (plan : List MDurable) : PSt := plan.foldl applyMStep p
+
+/-- `StartMultipartInsert(v)` (multipart.go:31-77): one metadata commit carrying the reserved
+sequence numbers and the multipart marker. -/
+def planStartMp (s : St) (v : Nat) : List MDurable :=
+  [ .mpMeta "pathbadger.startmp.1-after-meta-commit" (startMultipart s v).nextSeq v
+      [(0, nextSeqOf s v 0), (1, nextSeqOf s v 1)] ]
+
+/-- A chunk `Commit` (pathbadger.go:868-976 with `ba.chunk`): `NewBatch` commits no metadata
+(720-728), the updated-nodes index is not written (946), the root node is (re)written last. -/
+def planChunk (s : St) (new : Root) (seq : Nat) (puts : List (Key × NodeVal)) (root : NodeVal) : List Durable :=
+  let th : TH := (new.typ, new.hash)
+  [ .metaCommit "pathbadger.commit.1-after-meta-commit" s.nextSeq (chunkCommit s new seq puts root).pendSeq
+      s.last s.earliest,
+    .metaFlush "pathbadger.commit.2-after-batmeta-flush" []
+      (if seq == 0 then [] else
+        [(new.ver, puts.map (fun (p : Key × NodeVal) => ((new.typ, seq, p.1), p.2)) ++ pendAt s new.ver)]),
+    .dataFlush "pathbadger.commit.3-after-batch-flush" new.ver
+      (if seq == 0 then puts.map (fun (p : Key × NodeVal) => ((new.typ, p.1), some p.2)) else [])
+      [((new.ver, th), some root)] ]
+
+/-- `cleanMultipartLocked` (multipart.go:88-166), called by `New` on every open (pathbadger.go:53)
+and by `AbortMultipartInsert`: it deletes what the journal `multipartRestoreNodeLogKeyFmt` lists —
+and this backend never writes that journal (its only other mention is keyformat.go:55), so the
+batch is empty — then clears the multipart fields of the metadata. -/
+def planCleanMp (p : PSt) : List MDurable :=
+  if p.mpVersion = 0 then [] else
+    [ .db (.dataFlush "pathbadger.cleanmp.1-after-batch-flush" p.mpVersion [] []),
+      .mpMeta "pathbadger.cleanmp.2-after-meta-commit" p.db.nextSeq 0 [] ]
+
+/-- Reopen (`New`, pathbadger.go:25-73): the metadata is loaded as it was last committed and the
+leftovers of a multipart restore are cleaned.  Nothing else is repaired. -/
+def recover (p : PSt) : PSt := applyMAll p (planCleanMp p)
+
 end OasisModel.NodeDB.PathCrash
